@@ -102,7 +102,7 @@ impl<'t> Interp<'t> {
 
     /// End of the run, after the arena was dropped: checks over the recorded history.
     pub fn finish(&mut self) {
-        heap::with(0, |h| h.final_check(true));
+        heap::with(0, |h| h.final_check(!self.skip_final_ledger));
         self.drain_heap_errors();
         let (created, dropped, calls, refused, fired) = heap::with(0, |h| (h.handles_created, h.handles_dropped, h.n_alloc, h.n_refused, h.fired));
         if created != dropped {
